@@ -30,7 +30,7 @@ checks = {
    note="interleavings at storage-operation granularity (not instruction granularity); clients are separate lake handles; starvation of the journal's bounded retry loop counts as a reported failure; scheduled parts run without -race, the shared-handle stress part with it"),
  "C13": dict(level="exploration", design="DESIGN.md §3 C13",
    technique="runtime monitor: model-based re-query of every commit after every later history step; reader/writer schedules under the operation-level scheduler with a chain-position window oracle; race detector on a shared-handle stress part",
-   text="(a) every commit created in a history reads the same at every later step (until vacuumed); (b) under every explored reader/writer schedule the reader returns exactly the contents of one commit of main's chain, not older than the last commit acknowledged before it started (each pair also runs strictly one-after-the-other, so that "acknowledged before" is established) and not newer than the last started before it returned; (c) free-running readers and writers on one handle under the race detector.",
+   text="(a) every commit created in a history reads the same at every later step (until vacuumed); (b) under every explored reader/writer schedule the reader returns exactly the contents of one commit of main's chain, not older than the last commit acknowledged before it started (each pair also runs strictly one-after-the-other, so that 'acknowledged before' is established) and not newer than the last started before it returned; (c) free-running readers and writers on one handle under the race detector.",
    note="storage-operation granularity; the reader's caches are warmed by a prior query on its handle"),
  "C15": dict(level="exploration", design="DESIGN.md §3 C15",
    technique="runtime monitor: object-level reference model of merge/revert over exhaustive two-branch histories and random multi-branch histories, every branch re-read from a cold handle after every operation",
